@@ -133,7 +133,7 @@ def kdiag(job):
 
 
 # ------------------------------------------------------------------ native end-to-end with solver-chosen preceding text
-PREFIX_LINES = ["", "// kommentar med åäö och €", "// plain", "s%d :: \"rad ett\nrad två\"", "   ", "u%d :: 1 // trailing ö"]
+PREFIX_LINES = ["", "// kommentar med åäö och €", "// plain", "s%d :: \"rad ett\nrad två\"", "   ", "u%d :: 1 // trailing ö", "// merge leftovers look like <<<<<<< or >>>>>>> or =======", "m%d :: \"<<<<<<< HEAD\""]
 
 
 def native_case(replay, kind, where, shape, crlf=False):
@@ -263,7 +263,8 @@ def run(tier):
     SYN = dict(SYNTAX)
     for kind in allk + list(SYN):
         for where in ("main", "lib"):
-            shapes = solver_shapes(stats, 2 if tier == "quick" else 6, hash((kind, where, common.seed())) & 0xffff)
+            shapes = solver_shapes(stats, 2 if tier == "quick" else 6, _case_seed(kind, where))
+            if kind == "conflict_marker": shapes = shapes + [([6], False), ([7, 6], False), ([1, 7, 3], True)]      # marker-like text earlier in the file, not at the start of a line
             for shape, crlf in shapes:
                 if kind in SYN:
                     KINDS[kind] = SYN[kind]
@@ -273,7 +274,7 @@ def run(tier):
                     fnd.report("wrong-line:%s" % kind, "%s in %s after %d lines of preceding text%s: reported at %s, written at %s" % (kind, where, len(shape), " (CRLF)" if crlf else "", nat.get("got") or nat.get("why"), nat.get("expected")), nat["files"], cmd="sylt --no-std -o out.lua main.sy")
     for kind, spec in TOP_SYNTAX.items():
         for where in ("main", "lib"):
-            for shape, crlf in solver_shapes(stats, 2 if tier == "quick" else 6, hash((kind, where, common.seed())) & 0xffff):
+            for shape, crlf in solver_shapes(stats, 2 if tier == "quick" else 6, _case_seed(kind, where)):
                 TOP_KINDS[kind] = spec
                 nat = native_case(art["replay"], kind, where, shape, crlf); nat_n += 1
                 del TOP_KINDS[kind]
@@ -282,14 +283,14 @@ def run(tier):
     # errors located at the end of the file (truncated input): the line must be a real line of that file, the last one or the one the open construct starts on
     for name, tail, back in EOF_CASES:
         for where in ("main", "lib"):
-            for shape, crlf in solver_shapes(stats, 2 if tier == "quick" else 6, hash((name, where, common.seed())) & 0xffff):
+            for shape, crlf in solver_shapes(stats, 2 if tier == "quick" else 6, _case_seed(name, where)):
                 nat = eof_case(art["replay"], tail, back, where, shape, crlf); nat_n += 1
                 if not nat["ok"]:
                     fnd.report("wrong-line:eof:%s" % name, "%s at the end of %s after %d lines of preceding text%s: reported at %s, written at %s" % (name, where, len(shape), " (CRLF)" if crlf else "", nat.get("got") or nat.get("why"), nat.get("expected")), nat["files"], cmd="sylt --no-std -o out.lua main.sy")
     # duplicate names that come in through `from .. use ..`: the error belongs to the importing file, at one of the two colliding statements
     for name, body, acc in IMPORT_DUPS:
         for where in ("main", "lib"):
-            for shape, crlf in solver_shapes(stats, 2 if tier == "quick" else 6, hash((name, where, common.seed())) & 0xffff):
+            for shape, crlf in solver_shapes(stats, 2 if tier == "quick" else 6, _case_seed(name, where)):
                 nat = import_dup_case(art["replay"], body, acc, where, shape, crlf); nat_n += 1
                 if not nat["ok"]:
                     fnd.report("wrong-line:%s" % name, "%s in %s after %d lines of preceding text: reported at %s, written at %s" % (name, where, len(shape), nat.get("got") or nat.get("why"), nat.get("expected")), nat["files"], cmd="sylt --no-std -o out.lua main.sy")
@@ -301,6 +302,11 @@ def run(tier):
                           "the primary location is the span of the first error of the returned list", "for multi-line constructs every line of the construct's extent named in the table is accepted"], time.time() - t0, len(fnd.violations))
     print("C15: %d symbolic-line cases, %d paths, %d queries, %d native runs, wall %.1fs" % (len(jobs), tot["paths"], tot["queries"], nat_n, time.time() - t0))
     return rc
+
+
+def _case_seed(*parts):
+    import zlib
+    return zlib.crc32(("/".join(map(str, parts)) + "/%d" % common.seed()).encode()) & 0xffff
 
 
 def solver_shapes(stats, n, seed):
